@@ -14,7 +14,7 @@ class C16(PureCheck):
     rule = ("str and FmtStr inputs: layouts of <=2 runs of length 0..3 (quick, + sampled 3-run layouts with runs up to "
             "length 4) / all <=2 runs of length 0..3 + 60k sampled 3-run layouts + 40k sampled layouts with runs up to length 4 (thorough) over "
             "{x, y, space, tab, newline} x {plain, red, bold+on_blue} - formatting changing inside words and inside "
-            "whitespace, empty runs with their own formatting inside/at the edge of whitespace and words, leading/trailing/multiple whitespace, non-ASCII whitespace (U+00A0, U+2028, U+3000, U+2003, 0x1C), no words at all - and columns 1..6; validated by TLC against "
+            "whitespace, empty runs with their own formatting inside/at the edge of whitespace and words, leading/trailing/multiple whitespace, non-ASCII whitespace (U+00A0, U+2028, U+3000, U+2003, 0x1C), no words at all - and columns 1..6; plain str arguments carrying SGR sequences (judged as the parsed value); validated by TLC against "
             "the greedy reference wrap of Wrap.tla. distinct_nontrivial = distinct (layout, columns) with >=2 words or a "
             "word longer than the line")
     exhaustive = {"quick": False, "thorough": False}
@@ -54,6 +54,16 @@ class C16(PureCheck):
             t = texts[k % len(texts)]
             cut = rng.randrange(0, len(t) + 1)
             pool.append([[t[:cut], list(rng.choice(ATTS))], [t[cut:], list(rng.choice(ATTS))]])
+        # a plain str that carries SGR sequences (str(some_fmtstr), coloured program output): linesplit parses it first,
+        # the verdict is computed from the parsed value
+        for k in range(150 if tier == "quick" else 3000):
+            words = [rng.choice(["x", "xy", "yx", "xyx", " ", "  ", "\t", "\n"]) for _ in range(rng.randrange(2, 7))]
+            raw = ""
+            for w in words:
+                code = rng.choice([None, None, "31", "1;44", "4"])
+                raw += w if code is None else "\x1b[%sm%s\x1b[%sm" % (code, w, rng.choice(["0", "39", "", "0"]))
+            for c in (1, 2, 3, 5, 7):
+                yield {"op": "linesplit", "f": {"k": "raw", "v": enc.enc_text(raw)}, "cols": c}
         k = 0
         for f in pool:
             for c in range(1, 7):
@@ -66,7 +76,13 @@ class C16(PureCheck):
     def execute(self, inp):
         from curtsies.formatstring import linesplit
         ev = dict(inp)
-        x = enc.build_value(inp["f"])
+        if inp["f"]["k"] == "raw":
+            from curtsies.formatstring import FmtStr
+            x = enc.dec_text(inp["f"]["v"])
+            ev["rawf"] = inp["f"]["v"]
+            ev["f"] = {"k": "f", "v": enc.enc_fmtstr(FmtStr.from_str(x))}
+        else:
+            x = enc.build_value(inp["f"])
         ev["res"] = fmtlib.enc_list_res(lambda: linesplit(x, inp["cols"]))
         return ev
 
